@@ -484,7 +484,10 @@ impl Scenario for BlockLockstep {
                         (Exec::Panicked(pj), Exec::Panicked(pi)) => {
                             ctx.cov.hit("both_panicked");
                             // out of generator scope (e.g. running past the end of ROM): only "both fail" is compared
-                            let msg = |s: &str| s.split(" @ ").next().unwrap_or("").to_string();
+                            // same kind of failure = same leading words of the message ("Invalid OP", "TRIED TO EXECUTE", "index out of
+                            // bounds"): which undefined opcode is met first can differ, because the translator fails before anything
+                            // has run while the interpreter fails after running the instructions in front of it
+                            let msg = |s: &str| s.split(" @ ").next().unwrap_or("").split(|c: char| c == ':' || c == '#').next().unwrap_or("").trim().to_string();
                             if msg(pj) != msg(pi) && !focus_c02 {
                                 out.push(Violation::new("C01", format!("C01/panic-class-differs"), format!("op {}: jit panicked '{}', interpreter '{}'", opi, pj, pi)));
                             }
